@@ -18,6 +18,8 @@ import threading
 REPO = os.environ.get("VERIF_REPO", "/repo")
 if REPO not in sys.path:
     sys.path.insert(0, REPO)
+if os.path.dirname(os.path.abspath(__file__)) not in sys.path:
+    sys.path.append(os.path.dirname(os.path.abspath(__file__)))
 PKG = os.path.join(REPO, "schwifty") + os.sep
 
 
@@ -117,21 +119,33 @@ def make_call(desc):
         return lambda: str(BIC(desc["text"]))
     if k == "from_bank_code":
         return lambda: str(BIC.from_bank_code(desc["cc"], desc["code"]))
+    if k == "runner":
+        # a call of the harness' implementation runner (tools/impl_runner.py): {'fn': name, 'args': [encoded arguments]}
+        import impl_runner
+        if not impl_runner.FACTS and os.environ.get("VERIF_FACTS"):
+            impl_runner.FACTS.update(json.load(open(os.environ["VERIF_FACTS"])))
+        f = impl_runner.FUNCS[desc["fn"]]
+        return lambda: f(list(desc["args"]))
     if k == "generate":
         return lambda: str(IBAN.generate(desc["cc"], desc["bank"], desc["account"], desc.get("branch", "")))
     raise ValueError(k)
 
 
-def explore_pair(d1, d2, rng=None, random_schedules=0):
+def explore_pair(d1, d2, rng=None, random_schedules=0, max_schedules=None, recheck=False):
     """All schedules 'T2 runs atomically after k steps of T1' (every k) and the symmetric ones, plus some random
-    fine-grained interleavings.  -> list of failing records"""
+    fine-grained interleavings.  -> list of failing records.
+    max_schedules: take evenly spaced k instead of every k.  recheck: after every interleaved run ask both calls again,
+    alone - damage left behind by an interleaving (a memo holding one call's key with the other's value) shows there."""
     c1, c2 = make_call(d1), make_call(d2)
     r1, n1 = solo_steps(c1)
     r2, n2 = solo_steps(c2)
-    # solo results must be stable (asked again after the other call ran: that is C15's business, not ours)
     fails = []
     runs = 0
-    scheds = [[0] * k + [1] * (n2 + 2) for k in range(n1 + 1)] + [[1] * k + [0] * (n1 + 2) for k in range(n2 + 1)]
+    ks1, ks2 = list(range(n1 + 1)), list(range(n2 + 1))
+    if max_schedules and len(ks1) + len(ks2) > max_schedules:
+        st = max(1, (len(ks1) + len(ks2)) // max_schedules)
+        ks1, ks2 = ks1[::st] + [n1], ks2[::st] + [n2]
+    scheds = [[0] * k + [1] * (n2 + 2) for k in ks1] + [[1] * k + [0] * (n1 + 2) for k in ks2]
     if rng is not None:
         for _ in range(random_schedules):
             scheds.append([rng.randrange(2) for _ in range(n1 + n2 + 4)])
@@ -143,6 +157,12 @@ def explore_pair(d1, d2, rng=None, random_schedules=0):
             fails.append({"calls": [d1, d2], "schedule": s, "solo": [r1, r2], "interleaved": res,
                           "trace_tail": it.trace_log[-12:]})
             break
+        if recheck:
+            again = [canon(make_call(d1)), canon(make_call(d2))]
+            if again != [r1, r2]:
+                fails.append({"calls": [d1, d2], "schedule": s, "solo": [r1, r2], "interleaved": res,
+                              "asked_again_alone_afterwards": again, "trace_tail": it.trace_log[-12:]})
+                break
     return fails, runs
 
 
@@ -164,7 +184,8 @@ def explore_main():
     out = {"runs": 0, "pairs": 0, "fails": []}
     for d1, d2 in job["pairs"]:
         try:
-            fails, runs = explore_pair(d1, d2, rng, job.get("random_schedules", 0))
+            fails, runs = explore_pair(d1, d2, rng, job.get("random_schedules", 0), job.get("max_schedules"),
+                                       job.get("recheck", False))
         except Exception as e:  # noqa: BLE001
             out["fails"].append({"calls": [d1, d2], "error": type(e).__name__ + ": " + str(e)[:200]})
             continue
